@@ -25,8 +25,8 @@ type hLineAmmo struct{ line string }
 func HarnessC08DecodeProvider() {
 	vSpinIsViolation()
 	E := int(vConcretize(vNondetInt("E", 1, 3)))
-	limit := int(vNondetInt("limit", 0, 3))
-	passes := int(vNondetInt("passes", 0, 3))
+	limit := int(vNondetInt("limit", 0, vHi(3, 8)))
+	passes := int(vNondetInt("passes", 0, vHi(3, 8)))
 	vAssume(limit != 0 || passes != 0)
 	lines := []string{"a", "b", "c"}
 	conf := DecodeProviderConfig{Queue: AmmoQueueConfig{AmmoQueueSize: 1}, Source: &hSrc{strings.Join(lines[:E], "\n") + "\n"},
